@@ -561,9 +561,10 @@ def run(ctx):
 	ctx.assume("a tick racing a POWEROFF may still send / report what it had already taken out of the queue")
 	r = ctx.rng("c03")
 	for i in range(ctx.scale(700, 60000)):
-		sequential(ctx, r, i)
+		sequential(ctx, ctx.case_rng("history", i), i)
 		if ctx.too_many() or ctx.time_left() < 0:
 			break
+	ctx.current_case = None
 	concurrent(ctx, r, "line")
 	real_threads(ctx, r)
 	if ctx.tier == "thorough" and ctx.shard[0] % 4 == 0:
@@ -597,6 +598,8 @@ def replay(ctx, data):
 		if err:
 			ctx.violation("concurrent", w, what = "%s: %s" % (w["scenario"], err))
 		return
-	ctx.rule = "replay: histories are regenerated from the seed; rerunning the check with the recorded seed"
+	if common.replay_case(ctx, data, {"history": sequential}):
+		return
+	ctx.rule = "replay: no case coordinates in the witness; rerunning the check with the recorded seed"
 	ctx.seed = data.get("seed", 0)
 	run(ctx)
